@@ -265,6 +265,11 @@ pub fn child_main(args: &[String]) -> ! {
 }
 
 pub fn check(c: &Case, obs: &mut Obs) -> Result<(), Fail> {
+    // Some fault classes run the writer in a child process that receives the case as JSON: work on the case as it comes
+    // back from JSON from the start, so that parent and child hold identical option values whatever the text form of a
+    // real number does (serde_json is built with float_roundtrip as well).
+    let round_tripped = from_json(&to_json(c));
+    let c = round_tripped.as_ref().unwrap_or(c);
     let built = match do_build(&c.build)? {
         Ok(b) => b,
         Err(_) => {
